@@ -149,6 +149,8 @@ func init() {
 				for _, c := range Sites(fn, s.announce, false) {
 					sess := Desc(c.Common().Args[len(c.Common().Args)-1])
 					r.Cond(strings.HasPrefix(sess, `call:fmt.Sprintf(const:"%v-%v"`), "C11.windows", name+"#announce-session", c.Pos(), "announcement session id carries the attempt number")
+					// the attempt's announcement starts only after the wait for its start block succeeded
+					r.Check("C11.windows", name+"#announce-after-start-wait", c.Pos(), Facts(c.Block()), `^\+\(dyn:P2\(P1, .*\) == nil\)$`)
 					if s.notLate {
 						ok := false
 						for _, g := range CmpGuards(c.Block()) {
